@@ -849,6 +849,31 @@ def nontrivial(case, obs):
     return any(len(set(w)) < len(w) or (set(w) & set(r)) for r, w in case["items"])
 
 
+PARTIAL_OUTPUT_IOPORTS = False    # set True to also draw IOPorts that are only driven and partly unused (see known_finding)
+
+
+def _partial_output_ioport(D):
+    """an IOPort all of whose uses are output-only buffers and that has at least one unused bit"""
+    for pi, p in enumerate(D["ios"]):
+        used, only_out, any_use = set(), True, False
+        for m in D["mods"]:
+            for it in m["items"]:
+                es = []
+                if it[0] == "buf":
+                    es = [(it[1]["port"], it[1]["i"] is None and it[1]["o"] is not None)]
+                elif it[0] == "inst":
+                    es = [(a[2], False) for a in it[1]["args"] if a[0] == "io"]
+                for e, out in es:
+                    if e[1] != pi:
+                        continue
+                    any_use = True
+                    only_out = only_out and out
+                    used |= set(range(p["w"])) if e[0] == "io" else set(range(e[2], e[3]))
+        if any_use and only_out and len(used) < p["w"]:
+            return True
+    return False
+
+
 def all_names(D):
     """every name the design gives at a naming site"""
     out = [x["n"] for x in D["sigs"]] + [x["n"] for x in D["ios"]] + [p[2] for p in D["ports"] if p[2] is not None]
@@ -868,10 +893,10 @@ def _has_ws(n):
 
 
 def _sanitize(D):
-    """the same design with every whitespace / control character inside a string replaced by `_`"""
+    """the same design with every whitespace / control character inside a string replaced by `_<hex code>_`"""
     def walk(x):
         if isinstance(x, str):
-            return "".join("_" if (c.isspace() or ord(c) < 32) else c for c in x)
+            return "".join(f"_{ord(c):02x}_" if (c.isspace() or ord(c) < 32) else c for c in x)
         if isinstance(x, list):
             return [walk(y) for y in x]
         if isinstance(x, dict):
@@ -895,6 +920,10 @@ def known_finding(case, obs, model):
         return None
     D = case["d"]
     st, _t, _d, _e, err = analyse(D)
+    if obs == [1] and st == "ok" and list(model) == [0, 0, 10] and _partial_output_ioport(D):
+        # the only failing clause is "one driver per bit" in the top module, and the design has a top-level IOPort that is
+        # only driven, with unused bits: the port is declared `output` at full width and the unused bits have no driver
+        return "C07-partial-ioport-undriven"
     if obs == [-2] and st == "noparse":
         # whitespace inside a name: exactly when the design has such a name and the same design with those characters
         # replaced converts to text that parses
@@ -1428,6 +1457,46 @@ def gen_design(rng, dollar=False, ws=False, zio=False):
             if kind != "o":
                 q["oe"] = _fit(rng, D, sync_ids + in_ids, 1)
         D["mods"][mo]["items"].append(["buf", q, None])
+    # a wider IOPort used slice by slice: contiguous slices (mostly with a non-zero start) handed to I/O buffers of every
+    # direction and to Instance io ports, spread over submodules at depth 1-3 and the top, so that a submodule's own
+    # I/O-port wire covers only part of the port (wire bit k of the module is port bit start+k)
+    if rng.random() < 0.5:
+        w = rng.randrange(2, 9)
+        D["ios"].append({"n": rng.choice(odd(["pad", "io", "bus", "pad", "a"])), "w": w})
+        p = len(D["ios"]) - 1
+        cuts = sorted(set(rng.sample(range(1, w), min(w - 1, rng.randrange(1, 4)))))
+        bounds = [0] + cuts + [w]
+        deep = [k for k in range(nm) if depth[k] >= 1]
+        kinds = [rng.choice(["i", "o", "oe", "io", "inst", "inst", None if rng.random() < 0.5 else "o"]) for _ in bounds[1:]]
+        if not PARTIAL_OUTPUT_IOPORTS and all(k in ("o", "oe", None) for k in kinds):
+            # an IOPort that is only driven and has unused bits becomes a full-width `output` wire whose unused bits have
+            # no driver (reported separately, see known_finding): keep such ports fully used
+            kinds = [k or "o" for k in kinds]
+        for (lo, hi), kind in zip(zip(bounds, bounds[1:]), kinds):
+            if kind is None:
+                continue                                        # a gap: these port bits stay unused
+            mo = rng.choice(deep) if deep and rng.random() < 0.8 else rng.randrange(nm)
+            sw = hi - lo
+            if kind == "inst":
+                nm_ = rng.choice([None, None, "pad", "iob"])
+                if nm_ in used_sub_names[mo]:
+                    nm_ = None
+                if nm_ is not None:
+                    used_sub_names[mo].add(nm_)
+                args = [["io", "PAD", ["iosl", p, lo, hi]], ["p", "W", ["int", sw]]]
+                if rng.random() < 0.5:
+                    args.append(["i", "T", _fit(rng, D, sync_ids + in_ids, 1)])
+                D["mods"][mo]["items"].append(["inst", {"type": rng.choice(["IOB", "SB_IO", "pad"]), "args": args}, nm_])
+                continue
+            q = {"port": ["iosl", p, lo, hi], "i": None, "o": None, "oe": None}
+            if kind in ("i", "io"):
+                D["sigs"].append({"n": rng.choice(pool), "w": sw, "s": False, "i": 0})
+                q["i"] = ["s", len(D["sigs"]) - 1]
+            if kind in ("o", "oe", "io"):
+                q["o"] = _fit(rng, D, sync_ids + in_ids, sw)
+                if kind != "o":
+                    q["oe"] = _fit(rng, D, sync_ids + in_ids, 1)
+            D["mods"][mo]["items"].append(["buf", q, None])
     ns2 = len(D["sigs"])
     # memories
     if rng.random() < 0.3:
@@ -1625,6 +1694,19 @@ def fixed_designs():
     out.append({"sigs": [S("o", 1)], "ios": [{"n": "p", "w": 0}],
                 "mods": [M(items=[["mod", 1, "s"]]), M(items=[["inst", {"type": "foo", "args": [["io", "p", ["io", 0]], ["o", "o", ["s", 0]]]}, "u"]])],
                 "ports": P(1)})
+    # slices of one IOPort with a non-zero start used in submodules at depth 1-3 (buffers of each direction, an Instance)
+    out.append({"sigs": [S("tx", 2), S("rx", 2), S("oe", 1), S("t", 1), S("u", 2)], "ios": [{"n": "pad", "w": 8}],
+                "mods": [M(items=[["mod", 1, "a"], ["buf", {"port": ["iosl", 0, 0, 1], "i": None, "o": ["s", 3], "oe": None}, None]]),
+                         M(items=[["mod", 2, "b"], ["buf", {"port": ["iosl", 0, 2, 4], "i": None, "o": ["s", 0], "oe": None}, None]]),
+                         M(items=[["mod", 3, "c"], ["buf", {"port": ["iosl", 0, 4, 6], "i": ["s", 1], "o": None, "oe": None}, None]]),
+                         M(items=[["buf", {"port": ["iosl", 0, 6, 7], "i": None, "o": ["s", 3], "oe": ["s", 2]}, None],
+                                  ["inst", {"type": "IOB", "args": [["io", "PAD", ["iosl", 0, 7, 8]], ["i", "T", ["s", 2]]]}, "iob"]])],
+                "ports": [["s", 0, None, None], ["s", 1, None, None], ["s", 2, None, None], ["s", 3, None, None]]})
+    out.append({"sigs": [S("tx", 2), S("rx", 2), S("oe", 1)], "ios": [{"n": "pad", "w": 6}],
+                "mods": [M(items=[["mod", 1, "s"]]),
+                         M(items=[["buf", {"port": ["iosl", 0, 1, 3], "i": ["s", 1], "o": ["s", 0], "oe": ["s", 2]}, None],
+                                  ["inst", {"type": "IOB", "args": [["io", "PAD", ["iosl", 0, 3, 5]]]}, None]])],
+                "ports": [["s", 0, None, None], ["s", 1, None, None], ["s", 2, None, None]]})
     # memory of width 0 and memory of depth 0
     for mw, md in [(0, 4), (4, 0), (0, 0)]:
         ab = 2 if md else 0
